@@ -62,9 +62,9 @@ CHECKS = {
         technique="Lean 4 proof (termination measure / potential function) + differential execution + adversarial verdict search",
         ref="§4 C09"),
     "C10": dict(
-        text="Theorems C10_exact_core / C10_exact_core_parts: for EVERY n, every testcase with pairwise distinct non-empty atoms (reducible or not, with prefix/suffix), every core of reducible atoms and every test that accepts exactly the deletions of the original still containing the core (CoreTest; shown satisfiable for every core by coreTest_singletons), minimize with min=1, repeat last/always, no time limit, any max >= 1 and any clock returns exactly the original with all reducible atoms outside the core deleted (order and flags kept) — from C03_one_minimal + C04_deletion_minimize + an 'accepted' invariant + sublist/filter lemmas. The test-count half, (2m+1)*ceil(log2 n)+5m+8, is stated as C10_test_bound_statement and NOT proved: it is decided by the monitor on the real Minimize.reduce for every (n, core) with n <= 8/10 and for empty/full/prefix/suffix/clustered/spread/random cores with n up to 1025/4096 on line, char and symbol atoms; the model is tied to the code on the same cases (final atoms + number of tests).",
-        note=NOTE + "Partial: the O(m log n) test bound is monitor + correspondence only (no theorem). The general C09 bound (n+1)(n+ceil(log2 n)+2)+1 is the proved upper bound on the number of tests.",
-        technique="Lean 4 proof (exact core from 1-minimality + deletion invariant) + differential execution on (n, core) grids with the bound as monitor",
+        text="Theorems C10_exact_core / C10_exact_core_parts: for EVERY n, every testcase with pairwise distinct non-empty atoms (reducible or not, with prefix/suffix), every core of reducible atoms and every test that accepts exactly the deletions of the original still containing the core (CoreTest; shown satisfiable for every core by coreTest_singletons), minimize with min=1, repeat last/always, no time limit, any max >= 1 and any clock returns exactly the original with all reducible atoms outside the core deleted (order and flags kept) — from C03_one_minimal + C04_deletion_minimize + an 'accepted' invariant + sublist/filter lemmas. Theorems C10_test_bound / C10_test_bound_default: under the same hypotheses (core duplicate-free, repeat=last, no repeated first round) the number of tests including the initial check is at most (2m+1)*ceil(log2 n)+5m+8 for EVERY n whose first chunk size is not cut by --max (default --max 2^30: every n <= 2^31), every clock and time limit — potential argument over the rounds (LithiumProofs/CoreBound.lean: every kept block of a round contains a core atom, so a round of chunk size c >= 4 starts with fewer than 2c(m+1) atoms and makes <= 2m+1 tests; the rounds of size 2 and 1 make <= 9m+8). C10_bound_needs_max: the --max hypothesis is necessary (model counterexample with --max 1). The real Minimize.reduce is tied to the model for every (n, core) with n <= 8/10 and for empty/full/prefix/suffix/clustered/spread/random cores with n up to 1025/4096 on line, char and symbol atoms (final atoms + number of tests), and the bound is also monitored there.",
+        note=NOTE + "The bound is proved for n <= 2^31 atoms with the default --max (beyond that the first round alone makes n/2^30 tests and the stated bound is false of code and model alike; such files cannot be run here). The general C09 bound (n+1)(n+ceil(log2 n)+2)+1 holds without that restriction.",
+        technique="Lean 4 proof (exact core from 1-minimality + deletion invariant; test bound by a potential function over the rounds) + differential execution on (n, core) grids with the bound as monitor",
         ref="§4 C10"),
     "C14": dict(
         text="Theorems C14_pow2 (is_power_of_two(k) iff k = 2^j, all integers), C14_process_args (start-up refuses exactly non-powers of two for the effective min/max; --chunk-size=n == min=max=n, repeat=never), C14_blocks (every minimize candidate = best minus one contiguous non-empty block; chunk size a power of two, <= min(max, lp2 n), non-increasing; block = chunk size unless it is the entire remainder), C14_min_clause (with power-of-two min <= max a candidate deletes fewer than min atoms only once at most min atoms remain), C14_resweep_decision + C14_removed_flag (the round-end decision sweeps the same size again only after a sweep that removed something, never under repeat=never, under repeat=last only at the smallest size; otherwise the size strictly decreases), C14_deadline_minimize, C14_deadline_pairs and C14_deadline_move (minimize, minimize-around, minimize-balanced and minimize-balanced with the experimental move make no proposal — hence start no test — once the clock has passed start+limit, for every test and clock). The resweep rule over the whole proposal log: monitor on the real code (blocks are also checked on testcases with non-reducible parts between the atoms).",
